@@ -131,6 +131,47 @@ def boundaries(alpha):
     return out
 
 
+SHAPER_SOURCES = {
+    "hangul": ["ot_shaper_hangul.rs"], "thai": ["ot_shaper_thai.rs"], "lao": ["ot_shaper_thai.rs"],
+    "arabic": ["ot_shaper_arabic.rs"], "syriac": ["ot_shaper_arabic.rs"], "hebrew": ["ot_shaper_hebrew.rs"],
+    "khmer": ["ot_shaper_khmer.rs"], "myanmar": ["ot_shaper_myanmar.rs"],
+}
+for _n in ("devanagari", "bengali", "gurmukhi", "gujarati", "oriya", "tamil", "telugu", "kannada", "malayalam", "sinhala"):
+    SHAPER_SOURCES[_n] = ["ot_shaper_indic.rs", "ot_shaper_vowel_constraints.rs"]
+
+
+def source_boundaries(name, alpha, with_unicode=True):
+    """white-box help for the generator: code points that occur as literals in the shaper's source, and the ends of the
+    ranges `BASE .. BASE + COUNT` that its constants span (with their neighbours) — off-by-one slips live there"""
+    import os, re
+    aset = set(alpha)
+    hexes, decs = set(), set()
+    for fn in SHAPER_SOURCES.get(name, []) + (["unicode.rs"] if with_unicode else []):
+        path = os.path.join(vlib.REPO, "src", "hb", fn)
+        if not os.path.exists(path):
+            continue
+        src = open(path).read()
+        if fn == "unicode.rs":
+            src = src[:60000]
+        for m in re.finditer(r"0x([0-9A-Fa-f]{3,6})\b", src):
+            hexes.add(int(m.group(1), 16))
+        if fn != "unicode.rs":
+            for m in re.finditer(r"(?<![\w.])(\d{1,3})\b", src):
+                v = int(m.group(1))
+                if 2 <= v <= 64:
+                    decs.add(v)
+    out = set()
+    for h in hexes:
+        for d in (-1, 0, 1):
+            if h + d in aset:
+                out.add(h + d)
+        for c in decs:
+            for d in (-2, -1, 0, 1):
+                if h + c + d in aset:
+                    out.add(h + c + d)
+    return sorted(out)
+
+
 def rand_string(r, alpha, marks, n, edge=None):
     s = []
     for _ in range(n):
@@ -200,7 +241,8 @@ def conservation_search(ctx, shim, r, per_script, scripts=None):
     for si, name in enumerate(names):
         alpha = alphabet(name)
         marks = [c for c in alpha if unicodedata.category(chr(c)).startswith("M")]
-        edge = boundaries(alpha)
+        edge = sorted(set(boundaries(alpha)) | set(source_boundaries(name, alpha)))
+        src_edge = source_boundaries(name, alpha, with_unicode=False) or edge
         for variant in range(2):
             has_dc = variant == 0
             rec, cmap, inv = make_font(name, has_dc, True)
@@ -210,6 +252,13 @@ def conservation_search(ctx, shim, r, per_script, scripts=None):
             for _ in range(per_script):
                 n = r.range(1, 8)
                 text = rand_string(r, alpha, marks, n, edge)
+                if name == "hangul" and r.chance(1, 3):
+                    # structured: a syllable head followed by a class-boundary jamo (composition arithmetic lives there)
+                    lv = 0xAC00 + 28 * r.below(4)
+                    head = r.choice([[0x1100 + r.below(19), 0x1161 + r.below(21)], [lv], [lv + r.range(1, 27)],
+                                     [0x1100 + r.below(19)], [0x1100, 0x1161]])
+                    text = ([r.choice(alpha)] if r.chance(1, 3) else []) + head + [r.choice(src_edge)] + \
+                           ([r.choice([0x302E, 0x302F])] if r.chance(1, 4) else [])
                 mode = r.below(6)
                 flags = r.choice([0, 3, 0x10, 0x13])
                 removed_ok = False
